@@ -208,6 +208,12 @@ def run(tier: str, seed: int, t0: float) -> int:
                         sl, p = rng.choice(slices)
                         ev_replace(b, sch, rd, di, f, t, sl, b.slice(p))
         jobs.append((b, f"T random[{name}]"))
+    # ---- T: every Node.replace / Node.slice on a document that the repository's own test-suite performs
+    from .. import suitetrace
+    data, last = suitetrace.record()
+    stats.notes.append(f"repository test-suite under the tracer: {last}")
+    for bs in suitetrace.batches(data, {"Replace", "Slice"}):
+        jobs.append((bs, f"T testsuite[{bs.schema_js['name']}]"))
     run_batches(jobs, stats, out, API)
     for key, least in (("verdict:ok", 2000),):
         if stats.counts.get(key, 0) < least:
